@@ -16,9 +16,10 @@ def parseTok (s : String) : Option Tok :=
 
 /-- a group: either the `W` probe or a list of concurrent actions. -/
 inductive Grp where
-  | work | acts (as : List Act)
+  | work | overlap | acts (as : List Act)
 
 def parseGrp (s : String) : Option Grp :=
+  if s = "O" then some .overlap else
   match (s.splitOn "|").mapM parseTok with
   | some [.work] => some .work
   | some toks => (toks.mapM fun (t : Tok) => match t with | Tok.act a => some a | Tok.work => none).map Grp.acts
@@ -55,6 +56,11 @@ def modelRun (states : List St) : List Grp → Option (List String)
     match (states.map workOnce).eraseDups with
     | [k] => (modelRun states rest).map (s!"i{k}" :: ·)
     | _ => none
+  | .overlap :: rest =>
+    let next := dedup (states.map overlapRun)
+    match (next.map view).eraseDups with
+    | [v] => (modelRun next rest).map (showView v :: ·)
+    | _ => none
   | .acts as :: rest =>
     let next := dedup (states.flatMap (groupOutcomes · as))
     match (next.map view).eraseDups with
@@ -86,12 +92,21 @@ def monitorRun (np : Nat) (states : List St) (workers : Nat) : List Grp → List
       if st.isEmpty then s!"FAIL worker-iterations-not-allowed {o}"
       else monitorRun np st workers rest os
     | none => "FAIL unparsable-observation"
+  | .overlap :: rest, o :: os =>
+    match parseView o with
+    | some v =>
+      let next := (dedup (states.map overlapRun)).filter (view · = v)
+      if !viewInvOk v then s!"FAIL stopped-with-live-worker-or-lost-context {o}"
+      else if next.isEmpty then s!"FAIL overlapping-checks-outcome-not-allowed {o}"
+      else monitorRun np next workers rest os
+    | none => "FAIL unparsable-observation"
   | .acts as :: rest, o :: os =>
     match parseView o with
     | some v =>
       let workers' := workers + (as.filter (· = .compute)).length
       let next := (dedup (states.flatMap (groupOutcomes · as))).filter (view · = v)
-      if next.isEmpty then s!"FAIL outcome-not-allowed-by-any-schedule {o}"
+      if !viewInvOk v then s!"FAIL stopped-with-live-worker-or-lost-context {o}"
+      else if next.isEmpty then s!"FAIL outcome-not-allowed-by-any-schedule {o}"
       else if as = [.check] && !quiescentCheckOk np workers' v then s!"FAIL check-rule {o}"
       else monitorRun np next workers' rest os
     | none => "FAIL unparsable-observation"
